@@ -1,7 +1,7 @@
 """C01 — Cascade walk: each live parent exactly once, only after all its live children."""
 PROPERTY = "C01"
 LEVEL = "other"
-CONTRACT_MODULES = ["contracts.specfuns", "contracts.lemmas_desc", "contracts.pyramid", "contracts.parallel", "contracts.walk"]
+CONTRACT_MODULES = ["contracts.specfuns", "contracts.lemmas_desc", "contracts.pyramid", "contracts.parallel", "contracts.walk", "contracts.reducer"]
 FUNCTIONS = [
     "toasty.pyramid.Pyramid.walk",
     "toasty.pyramid.Pyramid._walk_serial",
